@@ -78,6 +78,13 @@ class RobotsTxtChecker(object):
             # Leaving the block gives the connection back on an error too.
             with session:
                 while not session.done():
+                    if session.next_request().url_info.scheme not in (
+                            'http', 'https'):
+                        # Redirected to something this client cannot fetch.
+                        self._accept_as_blank(url_info)
+
+                        return
+
                     wpull.util.truncate_file(file.name)
 
                     try:
